@@ -174,6 +174,8 @@ def main(argv=None):
     ap.add_argument("--jobs", type=int,
                     default=int(os.environ.get("VERIF_JOBS", "16")))
     ap.add_argument("--only", help="run only shards whose name contains this")
+    ap.add_argument("--noevidence", action="store_true",
+                    help="do not rewrite evidence/ or replays/ (self-test)")
     args = ap.parse_args(argv)
     prop = args.prop.upper()
     seed = int(os.environ.get("VERIF_SEED", "0"))
@@ -204,7 +206,10 @@ def main(argv=None):
         shutil.rmtree(workdir, ignore_errors=True)
 
     new, seen_known = decide(prop, mod, m, known)
-    paths = write_replays(prop, m, new, tier, seed) if new else {}
+    if args.noevidence:
+        paths = {ck: "(not written)" for ck in new}
+    else:
+        paths = write_replays(prop, m, new, tier, seed) if new else {}
 
     # ---- inconclusive conditions -----------------------------------------
     inconclusive = []
@@ -293,7 +298,7 @@ def main(argv=None):
         "wall_s": round(wall, 2),
         "violations": int(sum(new.values())),
     }
-    if not args.only:
+    if not args.only and not args.noevidence:
         os.makedirs(os.path.join(env.VERIF, "evidence"), exist_ok=True)
         with open(os.path.join(env.VERIF, "evidence", prop + ".json"),
                   "w") as f:
